@@ -283,6 +283,18 @@ def build_dec(nid, k, child, ctx, name):
     raise ValueError(k)
 
 
+def make_policy(text, ctx):
+    parts = text.split(":")
+    PP = py_trees.common.ParallelPolicy
+    if parts[0] == "all":
+        return PP.SuccessOnAll(synchronise=parts[1] == "1")
+    if parts[0] == "one":
+        return PP.SuccessOnOne()
+    ids = [int(x) for x in parts[2].split(",") if x != ""]
+    return PP.SuccessOnSelected(children=[ctx.by_id[i] if i in ctx.by_id else Probe("stranger", i, ctx) for i in ids],
+                                synchronise=parts[1] == "1")
+
+
 def build(spec, ctx, names=None):
     """spec -> real behaviour tree (every node registered in ctx and tick-wrapped)"""
     names = names or {}
@@ -296,16 +308,7 @@ def build(spec, ctx, names=None):
         b = cls(name=name, memory=spec[2], children=kids)
     elif t == "P":
         kids = [build(c, ctx, names) for c in spec[3]]
-        parts = spec[2].split(":")
-        PP = py_trees.common.ParallelPolicy
-        if parts[0] == "all":
-            pol = PP.SuccessOnAll(synchronise=parts[1] == "1")
-        elif parts[0] == "one":
-            pol = PP.SuccessOnOne()
-        else:
-            ids = [int(x) for x in parts[2].split(",") if x != ""]
-            pol = PP.SuccessOnSelected(children=[ctx.by_id[i] if i in ctx.by_id else Probe("stranger", i, ctx)
-                                                 for i in ids], synchronise=parts[1] == "1")
+        pol = make_policy(spec[2], ctx)
         b = USER_CLASS[py_trees.composites.Parallel](name=name, policy=pol, children=kids)
     elif t == "D":
         child = build(spec[3], ctx, names)
@@ -461,6 +464,9 @@ class BtRun(object):
                     ctx.trace.append("Y%s:%s" % (ctx.nid.get(node.id, "?"), ST[node.status]))
             elif op == "stop":
                 ctx.by_id[int(toks[1])].stop(Status.INVALID)
+            elif op == "setpol":
+                # the policy of a parallel is a public attribute: assigning another one (of any type) between ticks
+                ctx.by_id[int(toks[1])].policy = make_policy(toks[2], ctx)
             elif op == "setbb":
                 Blackboard.storage[toks[1]] = val_parse(toks[2])
             elif op == "unsetbb":
